@@ -271,15 +271,16 @@ def designs_for(tier, seed):
     for i in range(nmut):
         nm, fs = rng.choice(single)
         t = G.add_comments(rng, fs[0], rng.choice([1, 2, 4, 8]))
-        if rng.random() < 0.3:
-            t = G.to_crlf(t)
+        if rng.random() < 0.4 and "{{{" not in t:
+            # (embed blocks are copied verbatim, line endings included: not converted)
+            t = G.to_crlf(t) if rng.random() < 0.6 else G.to_mixed(rng, t)
         ds.append(("%s+comments#%d" % (nm, i), [t], "mutated"))
     ngen = 80 if tier == "quick" else 600
     g = G.Gen(rng)
     for i in range(ngen):
         t = g.design()
-        if rng.random() < 0.25:
-            t = G.to_crlf(t)
+        if rng.random() < 0.3:
+            t = G.to_crlf(t) if rng.random() < 0.6 else G.to_mixed(rng, t)
         ds.append(("generated#%d" % i, [t], "generated"))
     return ds, rng
 
@@ -354,7 +355,7 @@ def run(tier, seed, replay):
             res.hist("opts_sc_ei_nl_va", "sc=%d ei=%d nl=%s va=%d" % (o["sc"], o["ei"], o["nl"], o["va"]))
             res.hist("opts_iw_mw", "iw=%d mw=%d" % (o["iw"], o["mw"]))
             if r[0] == "OK" and sum(len(t) for t in r[2]) >= 200:
-                distinct.add((di, G.opts_key(o)))
+                distinct.add((hash(tuple(fs)), G.opts_key(o)))
         if rs[0][0] == "OK":
             for t in rs[0][2]:
                 try:
